@@ -26,7 +26,10 @@ CONSTANTS
   NextHops,    \* set of next hops
   FiltVals,    \* subset of BOOLEAN: values of the `filtered` argument explored
   EvpnT2,      \* subset of Prefix holding EVPN type-2 routes (MAC mobility ahead of everything)
-  OpKinds      \* operation kinds explored in this configuration (all of them in the thorough tier)
+  OpKinds,     \* operation kinds explored in this configuration (all of them in the thorough tier)
+  VpnPfx,      \* subset of Prefix holding VPN (RD-qualified) prefixes, installed per VRF (C20)
+  Vrfs,        \* set of VRFs that have a kernel table
+  VrfImport    \* [Vrfs -> set of route targets imported]; ClsInfo[c].rts = route targets a class carries
 
 VARIABLE s
 
@@ -81,6 +84,18 @@ BestSet(st, p) == {e \in Elig(st, p) : \A f \in Elig(st, p) : ~Better(st, p, f, 
 \* ECMP: tied with the best on every step before the router-id step
 KeyNoRtr(st, p, e) == SubSeq(FullKey(st, p, e), 1, Len(FullKey(st, p, e)) - 1)
 EcmpSet(st, p) == {e \in Elig(st, p) : \E b \in BestSet(st, p) : KeyNoRtr(st, p, e) = KeyNoRtr(st, p, b)}
+
+\* C20, VRF clause: a VPN prefix is installed, with the same next-hop set, in the table of every VRF whose import
+\* targets match the best path's route targets.  With several equally good best paths that differ in their route
+\* targets either reading is acceptable ("may"); a VRF the best path does not match is not constrained by C20
+\* ("none"); without an eligible path nothing may be left in any VRF ("empty").
+VrfMatch(v, e) == ClsInfo[e.cls].rts \cap VrfImport[v] # {}
+VrfMode(st, v, p) ==
+  IF Elig(st, p) = {} THEN "empty"
+  ELSE IF \A b \in BestSet(st, p) : VrfMatch(v, b) THEN "must"
+  ELSE IF \E b \in BestSet(st, p) : VrfMatch(v, b) THEN "may"
+  ELSE "none"
+FibNh(st, p) == {e.nh : e \in EcmpSet(st, p)}
 
 \* a canonical ranking: sort by key, ties by (session index, rid) -- used only to have a
 \* deterministic representative; implementations may order ties differently.
